@@ -1360,6 +1360,7 @@ func (p *Path) Known(v ssa.Value, from, to int) (Rel, string, bool) {
 	if to < 0 || to > len(p.Events) {
 		to = len(p.Events)
 	}
+	haveNe, neC := false, ""
 	for i := from; i < to; i++ {
 		e := &p.Events[i]
 		if e.Kind != KAssume {
@@ -1367,9 +1368,20 @@ func (p *Path) Known(v ssa.Value, from, to int) (Rel, string, bool) {
 		}
 		for _, a := range e.Atoms {
 			if a.V == v {
+				// "differs from a constant" says little: a later atom that
+				// settles the value (nil, not nil, equal) takes precedence
+				if a.Rel == RNe {
+					if !haveNe {
+						haveNe, neC = true, a.C
+					}
+					continue
+				}
 				return a.Rel, a.C, true
 			}
 		}
+	}
+	if haveNe {
+		return RNe, neC, true
 	}
 	return 0, "", false
 }
